@@ -46,6 +46,23 @@ PROPS = {
         "level_text": "sources_sound (every source is a member of the inferred shape, any order/repetition) and one_more (adding a document never evicts) are Lean theorems over all histories, resting on merger_sound/merger_wf/infer_sound/infer_wf proved by induction over all shapes/documents. sources_sound is stated under conflictFree, the exact complement of recorded known finding D3 (pinned by the repo's own snapshot test); the negation on the D3 witness is proved too. merger, inference and from_sources of the model are compared with the real code on every run, and membership is re-checked on the real code's results with the independent `admits`.",
         "level_note": "Trusted: Lean kernel; hand-written model of shape/mod.rs (parse_rule on document trees), merger.rs, subset.rs tied by differential testing; reference semantics Ref/Sem.lean; the reference JSON parser stands in for the library's lexer/parser at this level (the text layer is C04's subject).",
     },
+    "C03": {
+        "module": "ShapeVerif.Props.C03",
+        "theorems": ["ShapeVerif.samples_accepted", "ShapeVerif.superset_of_sample", "ShapeVerif.self_accepted",
+                     "ShapeVerif.keeps", "ShapeVerif.newSample", "ShapeVerif.sub_trans_plain",
+                     "ShapeVerif.merger_tupleFlat", "ShapeVerif.infer_plain"],
+        "statements": {
+            "samples_accepted": "fromSourcesDoc h = ok s → ∀ d ∈ h, ∃ sd, inferDoc d = ok sd ∧ isSubset sd s = true   (all histories, no side condition)",
+            "keeps": "s.plain → a.wf → b.wf → a.tupleFlat → b.plain → isSubset s a → isSubset s (merger a b)",
+            "newSample": "b.plain → a.wf → b.wf → isSubset b (merger a b)",
+            "self_accepted": "s.wf → isSubset s s",
+        },
+        "partial": ["is_superset / is_superset_checked on *texts* compose samples_accepted with the parser (C04); on document trees they are superset_of_sample"],
+        "rule": "histories of 1-5 type-directed random documents (as C01) through p_c03: from_sources(h), then for every i the three API calls from_str(d_i).is_subset(S), S.is_superset(d_i), S.is_superset_checked(d_i)==Ok(true), and S.is_subset(S); evaluated on the real code and on the model. Non-trivial = history of >= 2 documents with a container.",
+        "assumptions": [],
+        "level_text": "samples_accepted is a Lean theorem over all histories of document trees: every single-document shape is reported as a subset of the merged shape. It rests on two lemmas proved for all shapes by induction over the 64 arms of merger (keeps, newSample), transitivity of is_subset into OneOf-free shapes, and invariants (wf, tupleFlat, plain) proved preserved. The proof only closes on the code repaired by the D6 fix; the pre-fix witnesses are kept as corpus entries. is_subset, merger and from_sources are compared with the real code on every run and the three API calls are re-evaluated on the real code.",
+        "level_note": "Trusted: Lean kernel; models of subset.rs, merger.rs, shape/mod.rs tied by differential testing; text layer via the reference parser until C04.",
+    },
     "C06": {
         "module": "ShapeVerif.Props.C06",
         "theorems": ["ShapeVerif.paths_agree", "ShapeVerif.visitor_spec", "ShapeVerif.classify_agree"],
